@@ -9,8 +9,8 @@ import (
 
 	"golang.org/x/tools/go/ssa"
 
-	"wtfverif/checker/internal/interval"
 	"wtfverif/checker/internal/bounds"
+	"wtfverif/checker/internal/interval"
 	"wtfverif/checker/internal/load"
 	"wtfverif/checker/internal/origin"
 	"wtfverif/checker/internal/pathev"
